@@ -103,6 +103,35 @@ func init() {
 				}
 				w.crashOffer(sc, "cross-field-v1", []types.Transaction{txn}, nil)
 			}
+			// a transaction whose siacoins balance (so that validation goes on to the
+			// contract rules), with the extremes confined to the proof outputs
+			if e, ok := pickSC(w, sc.ownedSC(true, true)); ok && e.SiacoinOutput.Value.Cmp(types.Siacoins(3)) > 0 {
+				if bal, ok := w.spendV1(sc.s, []types.SiacoinElement{e}, w.advAddr()); ok {
+					payout := types.Siacoins(2)
+					bal.SiacoinOutputs[0].Value = e.SiacoinOutput.Value.Sub(payout)
+					fc := types.FileContract{WindowStart: sc.child() + 2, WindowEnd: sc.child() + 4, Payout: payout,
+						ValidProofOutputs:  []types.SiacoinOutput{{Value: types.Siacoins(1)}, {Value: types.Siacoins(1)}},
+						MissedProofOutputs: []types.SiacoinOutput{{Value: types.Siacoins(1)}, {Value: types.Siacoins(1)}}}
+					bal.FileContracts = []types.FileContract{fc}
+					var ps []*types.Currency
+					c0 := &bal.FileContracts[0]
+					for i := range c0.ValidProofOutputs {
+						ps = append(ps, &c0.ValidProofOutputs[i].Value)
+					}
+					for i := range c0.MissedProofOutputs {
+						ps = append(ps, &c0.MissedProofOutputs[i].Value)
+					}
+					if t.Chance(1, 2) {
+						// one list only: valid = [max], missed = [max]
+						c0.ValidProofOutputs, c0.MissedProofOutputs = c0.ValidProofOutputs[:1], c0.MissedProofOutputs[:1]
+						c0.ValidProofOutputs[0].Value, c0.MissedProofOutputs[0].Value = max, max
+					} else {
+						extremes(ps)
+					}
+					w.signAllV1(sc.s, &bal)
+					w.crashOffer(sc, "cross-field-v1-balanced-contract", []types.Transaction{bal}, nil)
+				}
+			}
 		}
 		if sc.v2ok() {
 			var txn types.V2Transaction
@@ -816,6 +845,47 @@ func init() {
 				}
 			}
 		}
+	}})
+
+	// ---- C08: a Foundation address update riding along does not excuse the rest of the transaction
+	registerRows("C08", probeRow{"K8-v2-early-expiration-with-foundation-update", func(w *World, n *Node) {
+		sc := n.fork()
+		if !sc.v2ok() {
+			return
+		}
+		var mgmt *types.SiacoinElement
+		for _, e := range sc.ownedSC(false, true) {
+			e := e
+			if e.SiacoinOutput.Address == sc.s.FoundationManagementAddress {
+				mgmt = &e
+				break
+			}
+		}
+		c := sc.pickLive(true, func(c *Contract) bool { return sc.store.V2FC[c.id].V2FileContract.ExpirationHeight >= sc.child() })
+		if mgmt == nil || c == nil {
+			return
+		}
+		newAddr := w.wallets[len(w.wallets)-1].addrs[3].addr
+		t, ok := w.spendV2(sc.s, []types.SiacoinElement{*mgmt}, w.advAddr())
+		if !ok {
+			return
+		}
+		t.NewFoundationAddress = &newAddr
+		if !w.signAllV2(sc.s, &t) {
+			return
+		}
+		verr, ok := sc.offer(nil, []types.V2Transaction{t}, offerOpt{})
+		w.expect("C08", "K8-foundation-update-control", verr, ok, true, "Foundation address update spending an input of the management address")
+		if verr != nil {
+			return
+		}
+		e := sc.store.V2FC[c.id]
+		t.FileContractResolutions = []types.V2FileContractResolution{{Parent: e.Copy(), Resolution: &types.V2FileContractExpiration{}}}
+		if !w.signAllV2(sc.s, &t) {
+			return
+		}
+		verr, ok = sc.offer(nil, []types.V2Transaction{t}, offerOpt{})
+		w.expect("C08", "K8-early-expiration-with-foundation-update", verr, ok, false, fmt.Sprintf("the same transaction also expires v2 contract %v (expiration height %d) in the block at height %d", c.id, e.V2FileContract.ExpirationHeight, sc.child()))
 	}})
 
 	// ---- C04: leaf-index bits above the tree, a chain index whose block ID is altered, a contract that never existed
